@@ -340,7 +340,12 @@ func scenarioC12(c *hlib.RunCtx) *hlib.Violation {
 	var accepted []*report
 	nreq := 3 + t.Draw(12)
 	var cases []string
-	c.Note("nontrivial")
+	judged := 0 // a run is non-trivial when at least one of its requests was judged
+	defer func() {
+		if judged > 0 {
+			c.Note("nontrivial")
+		}
+	}()
 	for i := 0; i < nreq && viol == nil; i++ {
 		method := "POST"
 		if t.Bool(1, 6) {
@@ -586,6 +591,7 @@ func scenarioC12(c *hlib.RunCtx) *hlib.Violation {
 		}
 		rec := httptest.NewRecorder()
 		h.ServeHTTP(rec, req)
+		judged++
 		after := listTree(c.Dir)
 		cases = append(cases, fmt.Sprintf("%s %s (%d bytes) -> %d", method, why, len(body), rec.Code))
 		s.Logf("req", "%s %s len=%d -> %d", method, why, len(body), rec.Code)
